@@ -59,6 +59,7 @@ type vProfile struct {
 	regResults  []int // if set: the maximal number of results of the i-th registration
 	altUniform  bool  // C15: all parameters of a function are re-encoded the same way (their order is kept)
 	decorSoft   bool  // decorators may take a soft value-group as an extra parameter
+	twoSided    bool  // C16: a rejection in the container as drawn is compared with the rearranged one instead of being assumed away
 	visErr      bool  // call Visualize(VisualizeError(err)) after every failed Invoke
 }
 
